@@ -148,6 +148,7 @@ func c06Output(x *X, kind string, r *rng) {
 
 // c06Body: logs, draws, then fails when the first draw exceeds a threshold (or at once for thr < 0).
 func c06Body(outKind string, thr int64, bigSlice bool, seed uint64) func(x *X) {
+	multiline := mix(seed, 0x3117)%5 == 0 && thr >= 0
 	return func(x *X) {
 		r := newRng(seed)
 		c06Output(x, outKind, r)
@@ -160,6 +161,13 @@ func c06Body(outKind string, thr int64, bigSlice bool, seed uint64) func(x *X) {
 			x.draw(rapid.SliceOfN(rapid.Uint64(), 6000, 6000).AsAny(), "big")
 		}
 		if v >= thr || v <= -thr {
+			if multiline {
+				// a failure message of several lines, some of which look like the data part of a fail file
+				msg := fmt.Sprintf("mismatch for %d:\n got: 1\nwant: 2\nv0.4.8#7\n0x1f\n# trailing", v%7)
+				x.inv.Intents = append(x.inv.Intents, Intent{Kind: "Fatalf", Site: 1, Msg: msg, Fatal: true, Where: x.where})
+				x.ev("signal Fatalf site=1")
+				x.t.Fatalf("%s", msg)
+			}
 			x.fail(fkFatalf, 1)
 		}
 	}
